@@ -17,6 +17,9 @@ type Clause struct {
 	Text string
 	Expr ast.Expr
 	Src  string // file:line
+	// Assumed: a trusted clause (`ensures-trusted`): assumed at call sites, not checked against the
+	// body; every use is listed in the evidence
+	Assumed bool
 }
 
 type LoopSpec struct {
@@ -227,7 +230,7 @@ func (c *Contracts) LoadFile(path, pkg string) error {
 				return fmt.Errorf("%s: duplicate contract for %s", src, k)
 			}
 			c.Funcs[k] = cur
-		case "requires", "ensures", "assert":
+		case "requires", "ensures", "assert", "ensures-trusted":
 			if cur == nil {
 				return fmt.Errorf("%s: clause outside func", src)
 			}
@@ -239,6 +242,9 @@ func (c *Contracts) LoadFile(path, pkg string) error {
 			case "requires":
 				cur.Requires = append(cur.Requires, cl)
 			case "ensures":
+				cur.Ensures = append(cur.Ensures, cl)
+			case "ensures-trusted":
+				cl.Assumed = true
 				cur.Ensures = append(cur.Ensures, cl)
 			case "assert":
 				cur.Asserts = append(cur.Asserts, cl)
